@@ -32,10 +32,22 @@ CHECKS = {
             'Static, exhaustive over a finite table: the per-pair verdict (including hoisted per-row statements and extracted helper predicates) is evaluated with Python\'s short-circuit order on all 292 feasible valuations of 13 atoms (unassigned, own pair, student-rank order, project/lecturer undersubscribed, same lecturer, worst ranks absent, lecturer-rank order) and equals the SPA-STL blocking formula on each; any valuation on which a comparison with an absent value would be evaluated is reported (the function must always return a boolean); arrays are indexed by and compared with values of their own sort (ID vs index, project vs lecturer); the count/worst helpers are the documented scatter-folds; every pair of every row is examined; get_results prints exactly the returned value under the stability flag.',
             'Preconditions of the property (assignment respects upper quotas, students on acceptable projects) are assumed; M(p) subset of M(l). Trusted: ast.',
             'DESIGN.md section 5 C06 + Appendix B'),
+    'C08': ('reaching-definitions analysis for stale loop-carried uses over every generator function; document model of the emitted text (literal chunks, holes, repetitions) split into line templates and compared with the documented grammar; role tracing of every hole back to the option that feeds it; even-spread idiom recogniser; sampling-API contract',
+            'Static: the instance text of both writers is reduced to line templates (independent of +, f-strings, format, += loops or joined line lists) and shown to be header / numbered first-side lists / numbered second-side (or project and lecturer) lines with the documented columns and separators / blank line / parameter block; every column is fed by the option the grammar names (t1 vs t2, n2 vs n3, each quota total); quotas, targets and projects per lecturer are floor(total/n) plus one for the first total%n agents and are written as integers; one file <i>.txt per i in range(numinst), opened with w; list length uniform in [pmin, pmax]; tie draw [0,1] with p=[1-t, t]; second-side lists only with -twopl; no value computed in one loop is read stale in a later disjoint loop (this found the HA writer defect).',
+            'Statistical claims beyond the sampling-API contract (A4) are not decided. Trusted: ast.',
+            'DESIGN.md section 5 C08'),
+    'C09': ('writer/reader table agreement: document model of the writer (fields after deleting ":" and splitting on whitespace) vs the field/slice/section tables extracted from the abstractly interpreted reader; solver argparse table; integrality of written columns; reader rejection guards',
+            'Part: decides the FORMAT CONTRACT between generator and solver for both file kinds and every section - header positions, section order and counts, field k written = field k read with the same role (including the 2-agent embedding columns), list-valued field last and taken from the right slice, fields never fuse, numeric columns are integer-valued (int() in the reader cannot fail), empty second-side lists are not rejected, the documented solver flags exist; and re-evaluates on the current tree that the LP then built is the definition of a valid matching (C01 rules). It does not re-decide optimality/brute-force correctness on the loaded model (C02, C03, C07).',
+            'Trusted: ast; str.split/replace semantics as modelled.',
+            'DESIGN.md section 5 C09'),
     'C10': ('tie-aware tokeniser as a finite transducer explored against the documented grammar; abstract interpretation of the file reader per (numagents, twopl) with linear interval derivation of every section from the branch guards; field->attribute tables; guard discipline of rank_lecturer readers',
             'Static: the tokeniser\'s loop body is abstracted to a transition table and its product with the grammar (OPEN PLAIN* CLOSE | PLAIN)* is explored completely (dense ranks from 1 for every list length and tie grouping); for -na 2/3 with and without -twopl the reader\'s branch conditions are turned into integer intervals over the header counts and shown to be exactly the three sections, ids = index - (start-1), each quota/target/lecturer field comes from the documented column, preference lists from the documented slice, the 2-agent embedding gives hospital j its own lecturer j with target = upper quota, rank_lecturer is set for every pair exactly under -twopl, and every cost reader of rank_lecturer is presence-guarded.',
             'Behaviour on files outside the documented grammar is not decided. Trusted: ast; str.split / replace semantics as modelled; C16.R4 for the stability-only readers.',
             'DESIGN.md section 5 C10'),
+    'C12': ('scatter (group-by) normal form of the inversion; recognition of the de-duplicating structure (mask / set / membership); allow-list effect check between inversion and return; caller argument flow',
+            'Static: the second-side lists are shown to be scatter(init [], key a-1, value i+1) over EVERY entry a of EVERY first-side list i into one list per second-side agent (no filter, no truncation, indexed by agent id rather than compacted), followed only by permutations; for SPA the student->lecturer lists are built through a structure indexed by lecturer (so a lecturer whose projects are ranked non-adjacently still appears once) with lecturers looked up in the same project->lecturer table that is written to the file; HA/SM/HR invert over n2, SPA over n3.',
+            'First-side lists have distinct entries (replace=False: C08.R5/C17.R5). Trusted: ast; random.shuffle permutes (A4).',
+            'DESIGN.md section 5 C12'),
     'C13': ('writer and reader loop bodies abstracted to finite transition tables by a finite evaluator; complete exploration of the product automaton',
             'Static, exhaustive on a finite automaton: the writer table over (in_tie, tie bit, last) and the reader table over (in_tie, decoration) are extracted from the two loop bodies and their product is explored from the initial state over all input sequences; at every reachable step the emitted parentheses are balanced, non-nested, maximal runs of >= 2, the last decision has no effect, and the reader advances the rank by one exactly when the writer did not tie the previous entry with this one, starting at 1. Because the product is finite (3 reachable states, 12 transitions today) this holds for EVERY list length and EVERY tie vector, not up to a bound. Also: one indicator per element, both sides and both file kinds use the same writer/reader.',
             'Trusted: ast; number tokens are digit strings; tokens are whitespace separated.',
